@@ -697,6 +697,10 @@ func reuseLines(w *bufio.Writer, r *Rng, k int) {
 			cc := r.Pick([]int{2, 4})
 			fmt.Fprintf(w, "R %d %s 0 -1 0 wt:-1 r:9 R:%s r:%d r:9 s R:%s wt:-1\n", cc, b, a, alen+10, b)
 			fmt.Fprintf(w, "R %d %s 0 -1 0 r:%d r:9 R:%s#%d r:%d r:9\n", cc, b, blen+10, a, blobLen(a)/2, alen+10)
+			// … and onto a frame WITHOUT content checksum that is cut short: still an error, never a clean end
+			nc := genContent(r.Pick([]int{0, 1}), r.Intn(1000), 200000)
+			nf := saveBlob("reusenocc", realFrame(nc, wopts{bs: 65536, cc: 0, conc: 1}))
+			fmt.Fprintf(w, "R %d %s 0 -1 0 wt:-1 R:%s#%d %s X:unexpEOF P:%s\n", cc, b, nf, 20+r.Intn(blobLen(nf)-30), []string{"wt:-1", "r:300000 r:300000 r:9"}[r.Intn(2)], saveBlob("reusenoccc", nc))
 			fmt.Fprintf(w, "R %d %s 0 -1 0 s r:%d s R:%s s r:10 s r:%d s R:%s s\n", r.Pick([]int{1, 2}), szf, len(szc)+10, b, blen+10, szf)
 			fmt.Fprintf(w, "R 1 %s 0 -1 0 wt:-1 s R:%s s wt:-1 s\n", szf, b)
 		}
